@@ -1,9 +1,19 @@
-import Model.Sync
+import Proofs.SyncWitness
 
-/-! # C05 — a full node recovers from a crash at any point of block application
-(placeholder: the full theorem set is under construction) -/
+/-!
+# C05 — a full node recovers from a crash at any point of block application
+
+Model: the same `Sync` definitions as C02.  Every step (`Sync.onHeader` / `Sync.onData`, i.e. `deliver`)
+returns the atomic durable writes it issues, in order — per applied block `[updateState, saveBlock,
+setHeight]` (`block/sync.go:162,166,171`).  **Crash** = only a prefix of those writes reaches the disk
+(`Store.applyPrefix k ws`), the in-memory state and the caches are lost; **restart** = `Sync.start c image`
+with empty caches (`NewManager` raises the chain height to the state's height).  Compared with the real
+`SyncLoop` + `NewManager` at every write boundary by stream C05.
+-/
 namespace Spec.C05
 open Wire Chain Sync
+
+variable {c : Cfg} {ch : PChain} {top : Nat}
 
 /-- a crash after the last write of a step is the same as no crash -/
 theorem crash_after_all (s : Store) (ws : List SW) : s.applyPrefix ws.length ws = s.applyAll ws := by
@@ -12,5 +22,139 @@ theorem crash_after_all (s : Store) (ws : List SW) : s.applyPrefix ws.length ws 
 /-- a crash before the first write leaves the durable image unchanged -/
 theorem crash_before_all (s : Store) (ws : List SW) : s.applyPrefix 0 ws = s := by
   simp [Store.applyPrefix, Store.applyAll]
+
+/-- `DiskOK c ch d` in the words of the property: with `H = recHeight c d` the chain height the node reports
+after restart, the stored height is not above `H`, every height `≤ H` has a retrievable block identical to the
+proposer's, and the recorded state is the state after exactly `H`. -/
+theorem diskOK_iff (d : Store) : DiskOK c ch d ↔
+    (d.height ≤ recHeight c d ∧
+     (∀ s, d.state = some s → s = stateAt c ch (recHeight c d) ∧ c.initialHeight ≤ recHeight c d) ∧
+     (∀ k, c.initialHeight ≤ k → k ≤ recHeight c d →
+        ∃ b sb, ch k = some b ∧ d.getBlock k = some sb ∧ sb.sh = b.sh ∧ sb.savedSig = b.sh.sig ∧
+          sb.data.txs = b.data.txs ∧ (b.data.txs ≠ [] → sb.data = b.data))) :=
+  ⟨fun h => ⟨h.hle, h.state, h.blocks⟩, fun ⟨a, b, c⟩ => ⟨a, b, c⟩⟩
+
+/-! ## every crash point except one leaves a recoverable image -/
+
+/-- **Crash safety, strongest true form.**  After any events and clean restarts, for every next event and
+**every** number `k` of its writes that reached the disk — except when the last write that reached it is a
+state write (the boundary between `UpdateState` and `SaveBlockData`) — the image satisfies `DiskOK`, `start`
+succeeds on it, the restarted node reports exactly the recorded height, its state is the state after exactly
+that height, and it satisfies the invariant of C02 again (with empty caches and no events delivered yet), so
+that all theorems of C02 apply from it. -/
+theorem C05_crash_partial (g : GoodChain c ch top) (ops : List Op) (e : Ev) (k : Nat)
+    (hk : afterStateWrite (deliver ch (runOps c ch ops) e).2 k = false) :
+    let image := (runOps c ch ops).store.applyPrefix k (deliver ch (runOps c ch ops) e).2
+    DiskOK c ch image ∧
+    ∃ n ws, Sync.start c image = some (n, ws) ∧ n.store.height = recHeight c image ∧
+      n.lastState.lastHeight = n.store.height ∧ n.lastState = stateAt c ch n.store.height ∧
+      (∀ j, c.initialHeight ≤ j → j ≤ n.store.height →
+        ∃ b sb, ch j = some b ∧ n.store.getBlock j = some sb ∧ sb.sh = b.sh ∧ sb.data.txs = b.data.txs) ∧
+      Inv c ch n.store.height [] n := by
+  intro image
+  obtain ⟨n, ws, a1, a2, a3, a4, a5⟩ := crash_restarts g (runOps_safe g ops) e k hk
+  refine ⟨a2, n, ws, a1, a3, a4, a5.safe.st, ?_, a5⟩
+  intro j h1 h2
+  obtain ⟨b, sb, x1, x2, x3, _, x4, _⟩ := a5.safe.chain j h1 h2
+  exact ⟨b, sb, x1, x2, x3, x4⟩
+
+/-- the excluded crash point is exactly "one block's state is written, its block is not yet": among the first
+three writes of a step that applies a block only `k = 1` is excluded -/
+example (rest : List SW) (s : State) :
+    afterStateWrite (.updateState s :: .saveBlock 1 {} :: .setHeight 1 :: rest) 0 = false ∧
+    afterStateWrite (.updateState s :: .saveBlock 1 {} :: .setHeight 1 :: rest) 1 = true ∧
+    afterStateWrite (.updateState s :: .saveBlock 1 {} :: .setHeight 1 :: rest) 2 = false ∧
+    afterStateWrite (.updateState s :: .saveBlock 1 {} :: .setHeight 1 :: rest) 3 = false := by
+  simp [afterStateWrite]
+
+/-! ## recurring crashes, and convergence after them -/
+
+/-- **Nesting.**  Every node reachable by genuine events, clean restarts and any number of crashes (each at a
+non-excluded write boundary of any step, including steps of the re-application after an earlier crash, each
+followed by a restart on the image with empty caches) satisfies the safety invariant of C02: the loop is
+alive, every height up to the chain height holds the proposer's block, the state is the state after exactly
+the chain height. -/
+theorem C05_recurring_crashes (g : GoodChain c ch top) {n : FNode} (r : Reach c ch n) :
+    n.alive = true ∧ n.store.height = n.lastState.lastHeight ∧ n.lastState = stateAt c ch n.store.height ∧
+    DiskOK c ch n.store ∧
+    ∀ k, c.initialHeight ≤ k → k ≤ n.store.height →
+      ∃ b sb, ch k = some b ∧ n.store.getBlock k = some sb ∧ sb.sh = b.sh ∧ sb.data.txs = b.data.txs := by
+  obtain ⟨evs, hs⟩ := reach_safe g r
+  refine ⟨hs.alive, hs.hs g, hs.st, (hs.diskOK g).1, fun k h1 h2 => ?_⟩
+  obtain ⟨b, sb, x1, x2, x3, _, x4, _⟩ := hs.chain k h1 h2
+  exact ⟨b, sb, x1, x2, x3, x4⟩
+
+/-- and the next crash of such a node is again covered: `start` succeeds on the image and yields a reachable
+node (so the argument repeats for ever) -/
+theorem C05_next_crash_restarts (g : GoodChain c ch top) {n : FNode} (r : Reach c ch n) (e : Ev) (k : Nat)
+    (hk : afterStateWrite (deliver ch n e).2 k = false) :
+    ∃ n' ws, Sync.start c (n.store.applyPrefix k (deliver ch n e).2) = some (n', ws) ∧ Reach c ch n' := by
+  obtain ⟨evs, hs⟩ := reach_safe g r
+  obtain ⟨n', ws, a1, _⟩ := crash_restarts g hs e k hk
+  exact ⟨n', ws, a1, .crash e k r hk a1⟩
+
+/-- **Recovery: "after restart it continues syncing and reaches the proposer's chain".**  From any such node,
+for any delivery order of the remaining (or all) headers and data, with duplicates and clean restarts: the
+node applies every block up to any height `h` for which both parts of all blocks above its current height
+were delivered after the restart.  (Convergence needs `DistinctCommitments`, see `Spec.C02`.) -/
+theorem C05_converges_after_crashes (g : GoodChain c ch top) (dc : DistinctCommitments ch) {n : FNode}
+    (r : Reach c ch n) (ops : List Op) (h : Nat)
+    (hready : ∀ k, n.store.height < k → k ≤ h → Delivered ch (evsOf ops) k) :
+    h ≤ (runFrom c ch n ops).store.height := by
+  obtain ⟨evs, hi⟩ := reach_inv g dc r
+  exact converges_from g dc hi ops h hready
+
+/-! ## the full statement is false of the current code -/
+
+/-- the property as stated: every boundary between two durable writes -/
+def C05_crash_full : Prop :=
+  ∀ (c : Cfg) (ch : PChain) (top : Nat) (evs : List Ev) (e : Ev) (k : Nat), GoodChain c ch top →
+    DiskOK c ch ((run c ch evs).store.applyPrefix k (deliver ch (run c ch evs) e).2)
+
+theorem witness3_good : GoodChain wC wch3 3 := goodChain_of_check wC _ 3 (by decide) wFacts.2.2.2.1
+
+/-- **The full statement fails** (kernel-checked).  Chain of three blocks built by the producer model; header 1
+and data 2 are delivered, then header 2 arrives and the process dies after the first write of applying
+block 2.  The image holds the state of height 2 (so the node will report height 2) but no block 2.  Replayed on
+the real node by stream C05 (`C05/after-crash/crash-between-state-and-blk/block-missing-below-chain-height`). -/
+theorem C05_crash_fails : ¬ C05_crash_full := by
+  intro h
+  have hd : DiskOK wC wch3 wImage := h wC wch3 3 [.hdr 1, .dat 2] (.hdr 2) 1 witness3_good
+  obtain ⟨a, ra, rb, rc⟩ := wFacts.2.2.2.2.2.2.2
+  obtain ⟨b, sb, _, hsb, _⟩ := hd.blocks 2 (by decide) (by rw [ra]; exact Nat.le_refl _)
+  rw [rb] at hsb
+  cases hsb
+
+/-- the witness is at the excluded boundary, and **the damage is permanent**: the restarted node reports
+height 2; after *everything* has been delivered again (all headers and all data of the chain) it has moved on
+to height 3 with a live loop, and block 2 is still missing — events at heights `≤` the chain height are
+dropped, so it is never fetched again. -/
+theorem C05_crash_witness_permanent :
+    afterStateWrite (deliver wch3 wBefore (.hdr 2)).2 1 = true ∧ recHeight wC wImage = 2 ∧
+    wImage.getBlock 2 = none ∧
+    wAfter.map (fun n => (n.store.height, n.lastState.lastHeight, n.store.getBlock 2, n.alive)) = some (3, 3, none, true) :=
+  wFacts.2.2.2.2.2.2.2
+
+/-! ## non-vacuity -/
+
+/-- the excluded crash points of a step are exactly `k ≡ 1 (mod 3)` within the step's writes (three writes per
+applied block: after the state write, before the block save) -/
+theorem C05_excluded_points (g : GoodChain c ch top) (ops : List Op) (e : Ev) (k : Nat) :
+    afterStateWrite (deliver ch (runOps c ch ops) e).2 k = true ↔
+      k % 3 = 1 ∧ k ≤ (deliver ch (runOps c ch ops) e).2.length :=
+  (deliver_safe g (runOps_safe g ops) e).2.afterStateWrite_iff k
+
+/-- the hypotheses of `C05_crash_partial` are met on the witness chain at the other boundary inside the same
+step (state and block written, height not yet raised), and the conclusion is not trivial: the image records
+chain height 1, the restarted node reports height 2 = the height of its state -/
+example : ∃ n ws, Sync.start wC ((runOps wC wch3 [.ev (.hdr 1), .ev (.dat 2)]).store.applyPrefix 2
+      (deliver wch3 (runOps wC wch3 [.ev (.hdr 1), .ev (.dat 2)]) (.hdr 2)).2) = some (n, ws) ∧
+    n.lastState.lastHeight = n.store.height := by
+  have hk : afterStateWrite (deliver wch3 (runOps wC wch3 [.ev (.hdr 1), .ev (.dat 2)]) (.hdr 2)).2 2 = false := by
+    cases h : afterStateWrite (deliver wch3 (runOps wC wch3 [.ev (.hdr 1), .ev (.dat 2)]) (.hdr 2)).2 2 with
+    | false => rfl
+    | true => have := ((C05_excluded_points witness3_good _ _ 2).mp h).1; omega
+  obtain ⟨_, n, ws, a1, _, a3, _⟩ := C05_crash_partial witness3_good [.ev (.hdr 1), .ev (.dat 2)] (.hdr 2) 2 hk
+  exact ⟨n, ws, a1, a3⟩
 
 end Spec.C05
